@@ -870,7 +870,15 @@ func pinnedParamMap(f *types.Func) *paramMap {
 	ct := make([]string, n)
 	for k := 0; k < n; k++ {
 		cn[k] = sig.Params().At(k).Name()
-		ct[k] = typeStr(sig.Params().At(k).Type())
+		ct[k] = looseType(typeStr(sig.Params().At(k).Type()))
+	}
+	if ptypes != nil {
+		// a channel parameter narrowed to one direction is the same parameter
+		lt := make([]string, len(ptypes))
+		for k := range ptypes {
+			lt[k] = looseType(ptypes[k])
+		}
+		ptypes = lt
 	}
 	if ptypes == nil {
 		if len(pnames) == n {
